@@ -170,3 +170,35 @@ Theorem code_matches_spec :
   site_index_shift = 1%Z /\ trypsin_exception_literal = trypsin_exc_name /\ sort_key_variant = 1%Z.
 Proof. exact code_matches_spec_l. Qed.
 Print Assumptions code_matches_spec.
+
+(* ---- code-level tie (docs/py2coq.md): the BODIES of DecoyFasta.find_fixed_indices / reverse_sequence /
+        shuffle_sequence, translated from /repo's current source by harness/translate/py2coq.py into
+        coq/Gen/Py_decoy_fasta.v on every run (the `while` loops on explicit fuel S (|seq| + |indices|)), are
+        extensionally equal to the model functions every theorem above is about: no fuel exhaustion, no IndexError.
+        For shuffle_sequence the value returned by random.sample is a parameter and its contract (a permutation
+        of its argument) is the only hypothesis -- the same one decoy_perm uses. ---- *)
+From MoPep Require Gen.Py_decoy_fasta.
+From MoPep Require Import Model.PyRt Proofs.Py2CoqDecoyProofs.
+
+Theorem code_decoy_functions_translated :
+  Py_decoy_fasta.py_find_fixed_indices_untranslated = false /\
+  Py_decoy_fasta.py_reverse_sequence_untranslated = false /\
+  Py_decoy_fasta.py_shuffle_sequence_untranslated = false.
+Proof. vm_compute. repeat split. Qed.
+Print Assumptions code_decoy_functions_translated.
+
+Theorem code_find_fixed_indices_is_model : forall cfg s,
+  Py_decoy_fasta.py_find_fixed_indices cfg s = find_fixed_indices cfg s.
+Proof. exact code_find_fixed_indices_is_model_l. Qed.
+Print Assumptions code_find_fixed_indices_is_model.
+
+Theorem code_reverse_sequence_is_model : forall s fixed,
+  Py_decoy_fasta.py_reverse_sequence s fixed = POk (reverse_sequence s fixed).
+Proof. exact code_reverse_sequence_is_model_l. Qed.
+Print Assumptions code_reverse_sequence_is_model.
+
+Theorem code_shuffle_sequence_is_model : forall s fixed shuffled,
+  Permutation (free_indices fixed (length s)) shuffled ->
+  Py_decoy_fasta.py_shuffle_sequence s fixed shuffled = POk (shuffle_sequence s fixed shuffled).
+Proof. exact code_shuffle_sequence_is_model_l. Qed.
+Print Assumptions code_shuffle_sequence_is_model.
